@@ -168,6 +168,12 @@ type runnablePipeline struct {
 	// then not be mistaken for a spontaneous failure and answered with an
 	// automatic restart. Mirrors pkg/lifecycle-poc.
 	intentionalStop atomic.Bool
+
+	// forceStopped is set by a forced stop. The tomb keeps only its first
+	// kill reason: when the run had already failed with a transient error at
+	// that moment, the force stop's own (fatal) reason was dropped and the
+	// cleanup goroutine restarted the pipeline the user had just force stopped.
+	forceStopped atomic.Bool
 }
 
 // ConnectorService can fetch and create a connector instance, and report when
@@ -331,6 +337,11 @@ func (s *Service) StartWithBackoff(ctx context.Context, rp *runnablePipeline) er
 		return errShutdownDuringRecovery
 	}
 
+	if rp.forceStopped.Load() {
+		// force stopped while waiting to be restarted: do not restart
+		return cerrors.FatalError(pipeline.ErrForceStop)
+	}
+
 	return s.Start(ctx, rp.pipeline.ID)
 }
 
@@ -410,6 +421,7 @@ func (s *Service) stopForceful(ctx context.Context, rp *runnablePipeline) error 
 		Msg("force stopping pipeline")
 
 	// Creates a FatalError to prevent the pipeline from recovering.
+	rp.forceStopped.Store(true)
 	rp.t.Kill(cerrors.FatalError(pipeline.ErrForceStop))
 	for _, n := range rp.n {
 		if node, ok := n.(stream.ForceStoppableNode); ok {
@@ -1017,6 +1029,11 @@ func (s *Service) runPipeline(ctx context.Context, rp *runnablePipeline) error {
 				return err
 			}
 		default:
+			if rp.forceStopped.Load() && !cerrors.IsFatalError(err) {
+				// the run was force stopped after it had already failed with
+				// this (recoverable) error: the force stop decides
+				err = cerrors.FatalError(cerrors.Errorf("%w (the run had already failed: %w)", pipeline.ErrForceStop, err))
+			}
 			if cerrors.IsFatalError(err) {
 				// we use %+v to get the stack trace too
 				if err := s.pipelines.UpdateStatus(ctx, rp.pipeline.ID, pipeline.StatusDegraded, fmt.Sprintf("%+v", err)); err != nil {
